@@ -90,6 +90,12 @@ def run(ctx):
                                                              "TrackName={\"t\"}", "Port(1) Port(2)"]), mmlgen.block(rng, 1, rng.randrange(0, 3), {}))
                             for t in range(1, ntr + 1)))
     srcs += ["TR=1 cde TR=2 Port(1) efg", "Port(1) c", "Port(300) c"]
+    # the time base given by a VARIABLE or an expression (whatever the implementation makes of such an argument, the division
+    # field is a positive 15-bit number and the container is well-formed)
+    for v in [40000, 0, -1, 65632, 32768, 32767, 48, 47, 96, 100000, 2 ** 31]:
+        for form in ["Int TBASE=%d TimeBase(TBASE) cde", "Int TBASE=%d; TimeBase=TBASE; TR(2) cde", "Int TBASE=%d TIMEBASE(TBASE) c",
+                     "Int TBASE=%d System.TimeBase(TBASE) l4 cde", "TimeBase(%d+0) c", "TimeBase(2*%d) c", "Int TBASE=%d TimeBase(TBASE+1) c"]:
+            srcs.append(form % v)
     lines = ["compile_ev\t%s" % vlib.enc_text(s) for s in srcs]
     got = ctx.impl(lines, stall=20)
     # the bytes that are checked are those of the PUBLIC entry point compile(); compile_ev (the same stages called one by
